@@ -126,7 +126,7 @@ func ZZC10NewService(meta ch.Meta, st *ZZC10Store) *Service {
 func ZZC10NewStore() *ZZC10Store {
 	s := &ZZC10Store{LEO: zzsym.U64("leo"), HW: zzsym.U64("hw"), MaxRows: 2}
 	if zzsym.Thorough() {
-		s.MaxRows = 3
+		s.MaxRows = 4
 	}
 	zzsym.Assume(s.HW <= s.LEO)
 	s.Retention = channelstore.RetentionState{
